@@ -21,7 +21,7 @@ run/run_step/run_metaepoch/run_sprout/_do_sprout call chain has no other callers
 consult passes the tree itself. Evaluation sites are statements whose transitive effect summary
 (resolved call graph) contains an objective invocation.
 """
-CLAIM = """Decides, for every CFG path, the control-shape clause of the property: run() steps only after a fresh GSC=false and exits only on GSC=true; exactly one `+= 1` of the metaepoch counter per step and no other writer; sprouting only under GSC=false after the metaepoch; in every engine no two evaluation sites without a GSC consult between them, no evaluation after GSC=true, GSC=true implies deactivate-and-return; only init_from_config (from DemeTree.__init__/_do_sprout) creates demes; every GSC consult passes the tree. The clause does not depend on seeds or values, so the path enumeration is the whole quantifier."""
+CLAIM = """Decides, for every CFG path, the control-shape clause of the property: run() steps only after a fresh GSC=false and exits only on GSC=true; exactly one `+= 1` of the metaepoch counter per step and no other writer; sprouting only under GSC=false after the metaepoch; in every engine no two evaluation sites without a GSC consult between them, no evaluation after GSC=true, GSC=true implies deactivate-and-return; only init_from_config (from DemeTree.__init__/_do_sprout) creates demes; every GSC consult passes the tree. The clause does not depend on seeds or values, so the path enumeration is the whole quantifier. (R05.9) the shipped conditions are what the property names them for: MetaepochLimit is `counter >= n`, DontRun / DontStop are constants, AllStopped is the emptiness of the listing of all active demes, the evaluation limits read the live counters with `>=`, the precision flag is sticky, no condition answers from a verdict kept in the object, and minimize() reports nit = the tree's metaepoch counter."""
 NOTE = """User-supplied stop conditions/sprout mechanisms are outside pyhms. 'One engine iteration' = one statement-level evaluation site. Resolver and effect summaries (DESIGN.md §3, §9) are trusted."""
 TECHNIQUE = "custom ast/CFG typestate analysis + who-may-call over a resolved call graph with effect summaries"
 ASSUMPTIONS = [
